@@ -201,14 +201,20 @@ Inductive site_key :=
 | SAuthSecret   (* auth-secret *)
 | SAuthURL      (* auth-url with the svc:// form, already parsed: host and port *)
 | SGwBackend    (* HTTPRoute / TCPRoute rules[].backendRefs[].name (Gateway API) *)
-| SGwCert.      (* Gateway listeners[].tls.certificateRefs[].name (Gateway API) *)
+| SGwCert       (* Gateway listeners[].tls.certificateRefs[].name (Gateway API) *)
+| SBackendSvc.  (* the Service lookup of ingress.go addBackendWithClass: every backend the ingress
+                   converter builds, the auth-url svc:// pre-build (addAuthURLBackend) included *)
 
 (* st_src = namespace of the Ingress or Service that carries the reference (Source);
    None = the value comes from the global ConfigMap. For SAuthURL st_val is the host
    part of the URL ("name" or "namespace/name") and st_port its port. For the two
    Gateway API sites st_src is the namespace of the route (SGwBackend) or of the Gateway
    (SGwCert), st_val the name member of the reference and st_port its namespace member,
-   which gateway.go createBackend and readCertRef do not read ("TODO implement"). *)
+   which gateway.go createBackend and readCertRef do not read ("TODO implement").
+   For SBackendSvc st_src is source.Namespace (the namespace of the Ingress or Service
+   that declares the backend; None for the --default-backend-service source) and st_val
+   the full service name "namespace/name" handed to addBackendWithClass: the code calls
+   c.cache.GetService(source.Namespace, fullSvcName). *)
 Record site := {
   st_key : site_key;
   st_src : option string;
@@ -298,6 +304,9 @@ Definition resolve_site (d : dyn) (w : world) (u : userlists) (s : site) : res *
   | SGwCert =>
       (* c.cache.GetTLSSecretPath(gateway namespace, certRef.Name) *)
       (get_tls d w (src_ns s) (st_val s), u)
+  | SBackendSvc =>
+      (* c.cache.GetService(source.Namespace, fullSvcName) *)
+      (get_service d w (src_ns s) (st_val s), u)
   end.
 
 (* all the sites, in the order the converter visits them (the order of the backends is
